@@ -13,7 +13,7 @@
    all amounts of fuel; `Done` = the run terminated within the fuel.
    No axioms. *)
 From Coq Require Import List Arith.
-From GV Require Import Close.Skel Close.Compile Close.VMclose Close.CompileProofs Close.RefProofs Close.SimProofs Close.Frag Close.Sim.
+From GV Require Import Close.Skel Close.Compile Close.VMclose Close.CompileProofs Close.RefProofs Close.SimProofs Close.NoClosed Close.FragL Close.SimL.
 Import ListNotations.
 
 (* exactly once: every closable value is closed as often as it was created *)
@@ -94,19 +94,32 @@ Theorem C10_compile_correct_partial : forall b, straight b = true ->
 Proof. exact compile_correct_partial. Qed.
 Print Assumptions C10_compile_correct_partial.
 
-(* compile_correct, stage 2 (_partial): the whole skeleton language except
-   goto/labels, repeat and for-in loops (Frag.fragB): locals of all kinds, do,
-   while with break, if, calls, `return f()` with and without pending closes,
-   nested pcall, coroutines closed while suspended, yield, raise, return, at any
-   nesting depth.  If the program compiles, the close-stack VM on the compiled
-   code yields exactly the reference semantics' events and returns normally.
-   (The premise o = ONormal only excludes a "closed" yield outside any
-   coroutine, which cannot occur from the initial state.) *)
-Theorem C10_compile_correct_nogoto_partial : forall b, fragB b = true ->
-  forall fuel d ev c, run_ref fuel b d = Done (ev, ONormal) -> compile b = Some c ->
-  exists fuel', run_vm fuel' c d = Done (ev, VReturn).
-Proof. exact compile_correct_nogoto_partial. Qed.
-Print Assumptions C10_compile_correct_nogoto_partial.
+(* A whole program always ends normally at its protected call: outside a
+   coroutine nothing is ever "closed" (the premise the stage-2 theorem needed). *)
+Theorem C10_run_ref_normal : forall fuel b d ev o, run_ref fuel b d = Done (ev, o) -> o = ONormal.
+Proof. exact run_ref_normal. Qed.
+Print Assumptions C10_run_ref_normal.
+
+(* compile_correct, stage 3 (_partial): the WHOLE skeleton language — locals of
+   all kinds, do, while, repeat (condition evaluated before the body's closes),
+   generic for with its closing value, break, goto and labels (pre-declaration by
+   getLabels, restart at a label, gotos leaving any number of scopes, backward
+   gotos over <close> variables), if, calls, `return f()` with and without pending
+   closes, nested pcall, coroutines closed while suspended, yield, raise, return,
+   at any nesting depth — under ONE syntactic discipline (FragL.fragBl): in every
+   block the label statements precede the block's first local statement.  For
+   every such program, decision stream and fuel on which the reference semantics
+   terminates: if the program compiles, the close-stack VM on the compiled code
+   terminates with exactly the reference semantics' events and outcome.
+   STILL MISSING for the unrestricted statement (hence _partial): labels placed
+   after a local statement of their own block — in particular the back-label
+   rule of compileBlockNoPop (`goto continue` to a label at the end of a block
+   that declares locals directly). *)
+Theorem C10_compile_correct_labels_first_partial : forall b, fragBl false b = true ->
+  forall fuel d ev o c, run_ref fuel b d = Done (ev, o) -> compile b = Some c ->
+  exists fuel', run_vm fuel' c d = Done (ev, vout_of o).
+Proof. exact compile_correct_labels_first. Qed.
+Print Assumptions C10_compile_correct_labels_first_partial.
 
 (* The former refutation witness (coroutine.close of a coroutine suspended
    inside pcall): with Thread.CallContext repaired, the VM model agrees with the
